@@ -111,6 +111,15 @@ class FinalizeC(RtContract):
             return NotImplemented
         ex.unpack_hook = unpack
 
+        def subscript(ex, node, recv, idx, st):
+            # pos_info[0] / pos_info[1]: components of the raw span
+            if isinstance(recv, z3.ExprRef) and recv.sort() == Val and isinstance(idx, z3.IntNumRef) and idx.as_long() in (0, 1):
+                ex.safety(st, 'subscript: position_info is a pair', node, And(kind(recv) == K_TUPLE, recv == mk2(p20(recv), p21(recv))))
+                ex.safety(st, 'subscript: raw span holds ints', node, And(kind(p20(recv)) == K_INT, kind(p21(recv)) == K_INT))
+                return un_int((p20, p21)[idx.as_long()](recv))
+            return NotImplemented
+        ex.subscript_hook = subscript
+
         def c_position_at(ex, node, st):
             # callee known by contract (PositionAtC)
             args = [ex.ev(a, st) for a in node.args]
